@@ -2514,7 +2514,9 @@ func (c *streamableClientConn) handleSSE(ctx context.Context, requestSummary str
 	retriesWithoutProgress := 0
 
 	for {
-		lastEventID, reconnectDelay, clientClosed := c.processStream(ctx, requestSummary, resp, forCall)
+		// prevLastEventID is the resumption cursor so far: a body on which no event
+		// arrives must neither forget it nor make the stream look unresumable.
+		lastEventID, reconnectDelay, clientClosed := c.processStreamFrom(ctx, requestSummary, resp, forCall, prevLastEventID)
 
 		// If the connection was closed by the client, we're done.
 		if clientClosed {
@@ -2608,6 +2610,16 @@ func (c *streamableClientConn) checkResponse(ctx context.Context, requestSummary
 // indicating if the connection was closed by the client. If resp is nil, it
 // returns "", false.
 func (c *streamableClientConn) processStream(ctx context.Context, requestSummary string, resp *http.Response, forCall *jsonrpc.Request) (lastEventID string, reconnectDelay time.Duration, clientClosed bool) {
+	return c.processStreamFrom(ctx, requestSummary, resp, forCall, "")
+}
+
+// processStreamFrom is processStream for a body that continues a logical
+// stream: resumeID is the ID of the last event received on earlier bodies of
+// that stream ("" for the first body). It is the result if no further event
+// with an ID arrives, so that a body on which nothing arrives neither forgets
+// the resumption cursor nor makes the stream look unresumable.
+func (c *streamableClientConn) processStreamFrom(ctx context.Context, requestSummary string, resp *http.Response, forCall *jsonrpc.Request, resumeID string) (lastEventID string, reconnectDelay time.Duration, clientClosed bool) {
+	lastEventID = resumeID
 	defer func() {
 		// Drain any remaining unprocessed body. This allows the connection to be re-used after closing.
 		io.Copy(io.Discard, resp.Body)
